@@ -6,6 +6,7 @@ CONSTANTS
   MaxUid = 4
   MaxCode = 3
   NFlagSets = 2
+  SyncLit = FALSE
   Kinds = {"SELECT", "FETCH", "STORE", "UIDFETCH"}
   Greetings = {"PREAUTH"}
   SimDepth = 60
